@@ -42,6 +42,8 @@ PIECES = {
     'long': ['x' * 85, 'http://example.org/' + 'a' * 90, 'w' * 200],
     'hyphen': ['well-known-compound-word ' * 6, 'state-of-the-art ' * 8],
     'dashes': ['a -- b', '--', 'x--y'],
+    # white space other than blank, tab and the three line ends: page breaks of RFC texts and friends
+    'separators': ['page\fbreak', 'a\vb', 'x\x1cy\x1dz\x1e', u'nel\x85here', u'ls\u2028ps\u2029end'],
 }
 
 
